@@ -19,7 +19,7 @@ def S(rules, *, explanation, decides, not_decided, assumptions, level_text, leve
 
 PROPS = {
     "C01": S(
-        version.RULES + layout.RULES + formulas.RULES + [o.opc3_prologue, o.opc3b_fillers, o.int_intervals, o.exi1_producers, o.join1, o.alias1, o.opc5_version_coverage, o.opc6_exit_templates, o.opc8_jump_arithmetic],
+        version.RULES + layout.RULES + formulas.RULES + [o.opc3_prologue, o.opc3b_fillers, o.int_intervals, o.exi1_producers, o.join1, o.alias1, o.opc5_version_coverage, o.opc6_exit_templates, o.opc8_jump_arithmetic, o.opc10_handler_queue_order],
         explanation="Necessary conditions of 'contexts of a suspended frame are exact on CPython 3.9-3.12', decided from source: "
                     "partial evaluation of every sys.version_info branch over the four supported interpreters (every strict opcode lookup names an opcode that exists where it is reachable; "
                     "the ctypes module selected for V is one whose asserts hold for V; version-conditional names are bound wherever they are used); "
@@ -36,7 +36,7 @@ PROPS = {
         design_ref="DESIGN.md section 4, C01",
     ),
     "C02": S(
-        [o.opc1_cache_normalisation, o.exi2_consumers, o.alias1, o.int_intervals, o.opc5_version_coverage, o.opc6_exit_templates, o.opc8_jump_arithmetic] + [version.ver1_opcodes, version.ver2_dispatch, fmt.mode4],
+        [o.opc1_cache_normalisation, o.exi2_consumers, o.alias1, o.int_intervals, o.opc5_version_coverage, o.opc6_exit_templates, o.opc8_jump_arithmetic, o.opc10_handler_queue_order] + [version.ver1_opcodes, version.ver2_dispatch, fmt.mode4],
         explanation="Clauses specific to frames running on the calling thread: a forward must-dataflow over the CFG of currently_exiting_context tracks whether `offs` has skipped inline CACHE units "
                     "on every path to each identity test against an opcode that carries cache entries in some reachable interpreter (SEND on 3.12, CALL on 3.11/3.12, PRECALL on 3.11) -- "
                     "a running frame's f_lasti may rest on such an entry; every consumer addresses the exiting context as [-1] and recovers obj from the first argument of the next inner frame; "
@@ -67,7 +67,7 @@ PROPS = {
         design_ref="DESIGN.md section 4, C05",
     ),
     "C08": S(
-        [o.opc2_target_decoder, o.opc3_prologue, o.opc3b_fillers, o.line1, o.fall1, version.ver1_opcodes, o.opc5_version_coverage],
+        [o.opc2_target_decoder, o.opc3_prologue, o.opc3b_fillers, o.line1, o.fall1, version.ver1_opcodes, o.opc5_version_coverage, o.opc9_unpack_ex, o.opc10_handler_queue_order],
         explanation="Exhaustiveness of the `as`-target decoder against the compilers: the set of opnames with a (non-raising) case in describe_assignment_target is compared with every opname that the compiler of each supported interpreter "
                     "emits in the store sequence of an always-rendered target (387 generated targets x 4 scopes x 4 interpreters, plus every always-rendered `as` target of every with statement of the 3.11 and 3.12 standard libraries, delimited by instruction source positions; compile+dis only); with-prologue lengths and fillers per interpreter (16 generated layouts plus every with statement of those standard libraries); "
                     "start_line is taken from the line tracking updated before the with-opcode test; the local-name fallback applies only when varname is None and obj is known, by identity.",
